@@ -25,13 +25,14 @@ def occurrences(events):
     cur = None
     for i, ev in enumerate(events):
         site = ev[1]
-        if site == 'test.run':
+        if site in ('test.run', 'test.debug'):
+            # (test.debug .. test.debugged: -D, where the runner drives test.debug() itself)
             if cur is not None:
                 cur['open'] = True
                 occs.append(cur)
             cur = {'tid': ev[2], 'occ': ev[3], 'events': [], 'flags_run': ev[4], 'index': i,
-                   'open': False}
-        elif site == 'test.ran':
+                   'open': False, 'debug': site == 'test.debug'}
+        elif site in ('test.ran', 'test.debugged'):
             if cur is not None:
                 cur['flags_ran'] = ev[4]
                 cur['end_index'] = i
